@@ -276,6 +276,11 @@ func runLeaderWorld(t *testing.T, p *Plan, want []string, logw io.Writer) *Resul
 				if v > 1 {
 					v--
 				}
+			case 3:
+				if k("skipPct") > 0 && g.intn(3) == 0 {
+					v = hotstuff.View(g.intn(4)) // views below the chain length: view - chainLength must not wrap around
+					st.Probes["c16-query-below-chain-length"]++
+				}
 			}
 			la, pa := ask(a, v)
 			lb, pb := ask(b, v)
